@@ -5,6 +5,7 @@ mod corpus;
 mod gen;
 mod rng;
 mod p15;
+mod p07;
 mod p11;
 mod p16;
 mod p17;
@@ -108,6 +109,7 @@ fn main() {
         "C15" => p15::run(&args),
         "C16" => p16::run(&args),
         "C11" => p11::run(&args),
+        "C07" => p07::run(&args),
         "C17" => p17::run(&args),
         "C08" => p08::run08(&args),
         "C09" => p08::run09(&args),
